@@ -187,24 +187,36 @@ func explainRef(k kase, o *outcome, jc *judgeCache) {
 			continue
 		}
 		m, _ := mutByName(st.Mut)
-		k2 := kase{Shape: k.Shape, Routes: k.Routes, Rot: k.Rot, Steps: append([]step{}, k.Steps...)}
-		k2.Steps[j].Mut = m.sibling
-		o2 := jc.get(k2)
-		if !o2.Evaluable {
-			continue
+		// twin 1: the plain write in the same history; twin 2 (histories of several steps): the plain
+		// write alone — does this route share the cells of this shape for plain writes at all
+		twins := []kase{{Shape: k.Shape, Routes: k.Routes, Rot: k.Rot, Steps: append([]step{}, k.Steps...)}}
+		twins[0].Steps[j].Mut = m.sibling
+		at := []int{j}
+		if len(k.Steps) > 1 {
+			twins = append(twins, kase{Shape: k.Shape, Routes: k.Routes, Rot: k.Rot, Steps: []step{{Mut: m.sibling, Target: st.Target}}})
+			at = append(at, 0)
 		}
-		for i := range o.Leaks {
-			l := &o.Leaks[i]
-			if l.Step != j || l.Class != "ref" {
+		outer := false
+		for ti, k2 := range twins {
+			o2 := jc.get(k2)
+			if !o2.Evaluable {
 				continue
 			}
-			for _, l2 := range o2.Leaks {
-				if l2.Step == j && l2.From == l.From && l2.To == l.To {
-					l.Class = "interior"
-					break
+			for i := range o.Leaks {
+				l := &o.Leaks[i]
+				if l.Step != j || l.Class != "ref" {
+					continue
+				}
+				for _, l2 := range o2.Leaks {
+					if l2.Step == at[ti] && l2.From == l.From && l2.To == l.To {
+						l.Class = "interior"
+						break
+					}
 				}
 			}
+			outer = outer || o2.OuterLeak
 		}
+		o2 := outcome{OuterLeak: outer}
 		if o.OuterLeak && o2.OuterLeak {
 			o.B.classes = append([]string{}, o.B.classes...)
 			o.B.classes[j] = "interior"
